@@ -70,6 +70,7 @@ def run(ctx):
     ctx.rule("R09.9", "no radius of an arc command reaches a division while it may be zero (also by underflow of its square)")
     ctx.rule("R09.6", "converter grammar vs token language")
     ctx.rule("R09.7", "inline-close resolution yields a point or ValueError")
+    readers_none_means_nothing_read(ctx)
     fn, cmd_var, branches, dup, end_returns = PL.lexer_branches(ctx, "R09.1")
     reader_facts(ctx)
     operands(ctx, branches)
@@ -127,6 +128,26 @@ def close_resolution(ctx):
             ctx.ob("R09.7", "Path.%s[%s <- z]" % (bname, var), ok, how, s.lineno,
                    "the subpath start may not exist: a retained segment would carry a None end point")
     ctx.need(n >= 8, "R09.7", "fewer inline-close replacements than expected (%d)" % n)
+
+
+# --------------------------------------------------------------------------- reader contract
+def readers_none_means_nothing_read(ctx):
+    """The command branches re-check only some operands; for the others they rely on the readers' contract: _number/_flag
+    return None exactly when no number/flag token was consumed (so that a missing earlier operand makes the later ones missing
+    too).  Inside the reader loop a `return None` must therefore come BEFORE the cursor is advanced past the token."""
+    n = 0
+    for q in ("SVGLexicalParser._number", "SVGLexicalParser._flag"):
+        fn = ctx.fn(q, "R09.1")
+        loops = [x for x in fn.body if isinstance(x, ast.While)]
+        ctx.need(len(loops) == 1, "R09.1", "%s: reader loop not found" % q)
+        body = list(stmts_in(loops[0].body))
+        adv = [i for i, st in enumerate(body) if isinstance(st, ast.Assign) and attr_chain(st.targets[0]) == ["self", "pos"]]
+        ctx.need(adv, "R09.1", "%s: cursor advance not found" % q)
+        late = [st for i, st in enumerate(body) if i > adv[0] and isinstance(st, ast.Return) and (st.value is None or (isinstance(st.value, ast.Constant) and st.value.value is None))]
+        n += 1
+        ctx.ob("R09.1", "%s[None only before the token is consumed]" % q.split(".")[1], not late, "return None at line(s) %s after the advance at line %d" % ([st.lineno for st in late], body[adv[0]].lineno),
+               fn.lineno, "a reader that consumes a token and still answers None lets the following operands parse: `A 1e999 5 0 0 1 10 10` reaches the arc builder with rx = None (TypeError), `M 0 0 1e999 5` retains a Line whose end is None")
+    ctx.need(n == 2, "R09.1", "readers not found")
 
 
 # --------------------------------------------------------------------------- reader facts
@@ -223,6 +244,8 @@ def operands(ctx, branches):
                     nonnull.add(var)
                 reads.append((var, reader))
                 more_true = False
+            elif k == "stale":
+                reads.append((e[1], e[2]))
             elif k == "check":
                 var, how = e[1], e[2]
                 nonnull.add(var)
